@@ -346,6 +346,7 @@ func runC08(c *Config, r *Report) {
 	c08R10(ic, r)
 	c08R11(ic, r)
 	c04R20(ic, r, "R08.13")
+	closureFrameCloned(ic, r, "R08.14")
 	// R08.12: = R05.11: the function value a go statement starts carries a receiver evaluated
 	// when the method value was evaluated (go w.run(out) in a loop over []*worker)
 	{
@@ -1650,6 +1651,7 @@ func c08R10(ic *IC, r *Report) {
 
 func init() {
 	ruleText["R08.12"] = "= R05.11 shared: a method value carries the receiver evaluated with it, for value and pointer receivers: the goroutine started by go x.m(args) works on the x of the go statement, not on what the variable holds when the goroutine gets to run"
+	ruleText["R08.14"] = "= R04.6 / R11.5 shared: the function value created for a function literal captures a clone of the defining frame on every path - also for a literal called where it is written, which `go func() {...}()` runs after the statement has returned: with the live frame the goroutine sees the variables of the later iterations"
 	ruleText["R08.13"] = "= R04.20 shared: a goroutine argument of interface type, and a value sent on a channel of interface type, hold a copy of the value: the receiver does not follow the sender's variable"
 	ruleText["R08.11"] = "a function value created at run time (function literal given to reflect.MakeFunc) writes only the frame it allocates for its own activation: every store into a data vector inside the literal is rooted at a frame created there by newFrame (or a local alias of its vector) - the call may return in another goroutine, at any time, and the creating frame belongs to the creator"
 }
